@@ -84,6 +84,16 @@ fn main() {
         (m.permissions(0x3ff), m.permissions(0x400))
     });
 
+    // (v) page granularity: addresses never in a set range, but in the same 1024-byte page, report the set permissions
+    let mut b = backing::Memory::new(Endian::Little);
+    b.set_memory(0x1000, vec![0; 0x400], P::READ);
+    let mut m: Memory<il::Constant> = Memory::new_with_backing(Endian::Little, RC::new(b));
+    m.set_permissions(0x1000, 4, P::READ | P::WRITE);
+    show("(v)   backing READ on [0x1000,0x1400); set_permissions(0x1000, 4, RW); permissions(0x1003)", || m.permissions(0x1003));
+    show("(v)                                    permissions(0x1004) (never set; backing says READ)", || m.permissions(0x1004));
+    show("(v)                                    permissions(0x13ff) (never set; backing says READ)", || m.permissions(0x13ff));
+    show("(v)                                    permissions(0x1400) (next page, unmapped)", || m.permissions(0x1400));
+
     // (iii) a store changes reported permissions
     let mut b = backing::Memory::new(Endian::Little);
     b.set_memory(0x1000, vec![0; 16], P::READ);
